@@ -165,6 +165,7 @@ func checkC11(c *Ctx) error {
 		return err
 	}
 	engineCoverage(c, k.E, "")
+	c.Coverage["bounds"] = map[string]any{"history_length": kk, "name_length": maxLen, "map_orders": "every iteration order of maps with <= 4 entries", "reruns": "previous / truncated / longer stale output, GOMAXPROCS, invocation mode, log level, TZ/LANG, single-file invocations next to sibling leftovers", "outside": "the parser (packages.Load) other than through the rerun gates"}
 	c.Coverage["explanation"] = fmt.Sprintf("History dimension: the real VarPool serves one symbolic request history (length %d, names <= %d) twice, the second allocator additionally pre-registering a symbolic injector name as ParseFile does when a previous *_band.go exists; outputs must be equal (solver, strings). Map-order dimension: the interpreter visits map entries in a nondeterministically chosen permutation; Generate's import block (format.Node stubbed to record the block; %d symbolic distinct import paths, slices.SortFunc interpreted), findMaximumAntichainSize and GetUsedImports are run with free iteration order and must give equal results. Map-range sites of the generator are listed from SSA with their harness status. Gates: every examples/* input regenerates its checked-in kessoku_band.go byte for byte; a determinism corpus is generated 4x (GOMAXPROCS 1..16, with the previous output present, with a truncated previous output) and must be byte-identical.", kk, maxLen, nImp)
 	c.Coverage["obligations"] = oblig
 	c.Coverage["evaluations"] = paths
